@@ -145,6 +145,13 @@ struct Inject {
 
 static INJECT: Mutex<Option<Inject>> = Mutex::new(None);
 
+/// Scenario `satb`: outcome facts of the current execution (marked objects of A..D when the
+/// program started / ended, whether the cycle ended inside the program).
+static SATB_OUT: Mutex<String> = Mutex::new(String::new());
+
+/// Scenario `satb`: the pause that is about to end is the one that starts concurrent marking.
+static SATB_HOLD: std::sync::atomic::AtomicBool = std::sync::atomic::AtomicBool::new(false);
+
 fn upcall(name: &'static str, tls: usize) {
     match name {
         "vm_roots" => {
@@ -163,6 +170,14 @@ fn upcall(name: &'static str, tls: usize) {
         "stopped" => rt::event("vm_stopped", tls, 0),
         "resume" => rt::event("vm_resume", tls, 0),
         "weak_refs" => rt::event("vm_weak_refs", tls, 0),
+        "resumed" => {
+            // scenario `satb`: after the initial-mark pause the worker lets the mutator run first
+            // (a yield, not a preemption), so that by default the program runs before the
+            // concurrent marking packets instead of after them
+            if SATB_HOLD.load(std::sync::atomic::Ordering::SeqCst) {
+                rt::yield_point(1);
+            }
+        }
         _ => {}
     }
 }
@@ -180,6 +195,22 @@ pub enum Kind {
     /// GC, prepare_to_fork (as soon as block_for_gc returned: races with the tail of the GC), all
     /// worker threads exit and are joined, after_fork, GC; `rounds` times
     Fork { rounds: usize, race: bool },
+    /// C17 seam (b): one collection in which the first `process_weak_refs` call fans out
+    /// `racers` packets that all trace the same, not yet reached, object through clones of the
+    /// tracer context (`vm::TRACE_FANOUT`); the metadata atomics on that object's forwarding
+    /// word / bits (and mark bit) are scheduling points; only the race is explored (the
+    /// exploration window is open from the fan-out until the last racer has returned)
+    Race { racers: usize },
+    /// two mutator threads (the controller = mutator 0 and a second OS thread = mutator 1) each
+    /// make one forced user collection request, concurrently: mutator 1's request may be made
+    /// before, while or after mutator 0's is pending / being served (the binding's
+    /// multi-mutator mode, `vm::multi_*`)
+    Req2,
+    /// C12: one concurrent marking cycle of ConcurrentImmix (initial-mark pause triggered by an
+    /// allocation burst, the mutator program `Job::prog` racing with the concurrent marking
+    /// packets, final-mark pause, line-reusing allocation burst, full collection); see
+    /// `Child::satb_execution`
+    Satb,
 }
 
 impl Kind {
@@ -188,6 +219,9 @@ impl Kind {
             Kind::Gc1 => "gc1".into(),
             Kind::Gc2 => "gc2".into(),
             Kind::Fork { rounds, race } => format!("fork{}{}", rounds, if *race { "r" } else { "" }),
+            Kind::Race { racers } => format!("race{}", racers),
+            Kind::Req2 => "req2".into(),
+            Kind::Satb => "satb".into(),
         }
     }
     pub fn from_name(s: &str) -> Kind {
@@ -198,17 +232,37 @@ impl Kind {
             "fork1r" => Kind::Fork { rounds: 1, race: true },
             "fork2" => Kind::Fork { rounds: 2, race: false },
             "fork2r" => Kind::Fork { rounds: 2, race: true },
+            "race2" => Kind::Race { racers: 2 },
+            "race3" => Kind::Race { racers: 3 },
+            "req2" => Kind::Req2,
+            "satb" => Kind::Satb,
             other => machinery_failure(&format!("unknown scheduler scenario {}", other)),
         }
     }
     pub fn is_fork(&self) -> bool {
         matches!(self, Kind::Fork { .. })
     }
+    pub fn is_race(&self) -> bool {
+        matches!(self, Kind::Race { .. })
+    }
+    /// the scenario part of a signature
+    pub fn scenario(&self) -> String {
+        if self.is_fork() {
+            "fork".to_string()
+        } else if self.is_race() {
+            "race".to_string()
+        } else {
+            self.name()
+        }
+    }
     fn requests(&self) -> usize {
         match self {
             Kind::Gc1 => 1,
             Kind::Gc2 => 2,
             Kind::Fork { rounds, .. } => 1 + rounds,
+            Kind::Race { .. } => 1,
+            Kind::Req2 => 2,
+            Kind::Satb => 0,
         }
     }
 }
@@ -228,16 +282,26 @@ pub struct Job {
     /// spurious condition-variable wake-ups the strategy may inject per execution (each costs a
     /// preemption)
     pub spurious: u32,
+    /// `Kind::Satb`: the mutator program (op codes, see `SATB_OPS`)
+    pub prog: Vec<u8>,
 }
 
 impl Job {
     pub fn json(&self) -> Value {
-        json!({"kind": self.kind.name(), "pattern": self.pattern.json(), "via_worker": self.via_worker, "bound": self.bound, "free_bound": self.free_bound, "spurious": self.spurious})
+        let mut v = json!({"kind": self.kind.name(), "pattern": self.pattern.json(), "via_worker": self.via_worker, "bound": self.bound, "free_bound": self.free_bound, "spurious": self.spurious});
+        if self.kind == Kind::Satb {
+            v["prog"] = json!(self.prog);
+            v["prog_text"] = json!(satb_prog_name(&self.prog));
+        }
+        v
     }
     pub fn from_json(v: &Value) -> Job {
-        Job { kind: Kind::from_name(v["kind"].as_str().unwrap_or("gc1")), pattern: Pattern::from_json(&v["pattern"]), via_worker: v["via_worker"].as_bool().unwrap_or(false), bound: v["bound"].as_u64().unwrap_or(1) as u32, free_bound: v["free_bound"].as_u64().unwrap_or(1) as u32, spurious: v["spurious"].as_u64().unwrap_or(0) as u32 }
+        Job { kind: Kind::from_name(v["kind"].as_str().unwrap_or("gc1")), pattern: Pattern::from_json(&v["pattern"]), via_worker: v["via_worker"].as_bool().unwrap_or(false), bound: v["bound"].as_u64().unwrap_or(1) as u32, free_bound: v["free_bound"].as_u64().unwrap_or(1) as u32, spurious: v["spurious"].as_u64().unwrap_or(0) as u32, prog: v["prog"].as_array().map(|a| a.iter().map(|x| x.as_u64().unwrap_or(0) as u8).collect()).unwrap_or_default() }
     }
     pub fn name(&self) -> String {
+        if self.kind == Kind::Satb {
+            return format!("satb/{}", satb_prog_name(&self.prog));
+        }
         format!("{}/{}{}{}", self.kind.name(), self.pattern.name(), if self.via_worker { "/local" } else { "" }, if self.spurious > 0 { "/spurious" } else { "" })
     }
 }
@@ -252,15 +316,131 @@ pub struct ChildCfg {
     pub eph_chain: usize,
     /// enable mmtk's own reference / finalizer processing packets
     pub refs: bool,
+    /// extra MMTk options (`name`, `value`), e.g. Immix forced defragmentation
+    pub options: Vec<(String, String)>,
+    /// number of bound mutators (2 for the `req2` scenario; mutator 1 has no roots)
+    pub mutators: usize,
+    /// no standard heap (the scenario builds its own objects in every execution)
+    pub bare: bool,
 }
 
 impl ChildCfg {
     pub fn json(&self) -> Value {
-        json!({"plan": self.plan, "workers": self.workers, "eph_chain": self.eph_chain, "refs": self.refs, "placement": vm::PLACEMENT})
+        let mut v = json!({"plan": self.plan, "workers": self.workers, "eph_chain": self.eph_chain, "refs": self.refs, "placement": vm::PLACEMENT});
+        if !self.options.is_empty() {
+            v["options"] = json!(self.options);
+        }
+        if self.mutators != 1 {
+            v["mutators"] = json!(self.mutators);
+        }
+        if self.bare {
+            v["bare"] = json!(true);
+        }
+        v
     }
     pub fn from_json(v: &Value) -> ChildCfg {
-        ChildCfg { plan: v["plan"].as_str().unwrap_or("SemiSpace").to_string(), workers: v["workers"].as_u64().unwrap_or(2) as usize, eph_chain: v["eph_chain"].as_u64().unwrap_or(1) as usize, refs: v["refs"].as_bool().unwrap_or(false) }
+        ChildCfg { plan: v["plan"].as_str().unwrap_or("SemiSpace").to_string(), workers: v["workers"].as_u64().unwrap_or(2) as usize, eph_chain: v["eph_chain"].as_u64().unwrap_or(1) as usize, refs: v["refs"].as_bool().unwrap_or(false), options: v["options"].as_array().map(|a| a.iter().map(|kv| (kv[0].as_str().unwrap_or("").to_string(), kv[1].as_str().unwrap_or("").to_string())).collect()).unwrap_or_default(), mutators: v["mutators"].as_u64().unwrap_or(1) as usize, bare: v["bare"].as_bool().unwrap_or(false) }
     }
+}
+
+// ---------------------------------------------------------------------------------------------
+// C12: mutator programs racing with concurrent marking (scenario `satb`)
+
+/// The graph at the start of marking is root0 -> A -> B -> C and root3 -> D (D.f = null); E is
+/// allocated by the program (root4), R is root5.  Every op goes through the plan's write barrier
+/// (`World::write_field`) resp. is a plain root update.
+pub const SATB_OPS: [&str; 6] = ["A.f<-null", "D.f<-A.f,drop(D)", "E=alloc", "E.f<-A.f.f", "A.f<-E", "R<-A.f"];
+
+pub fn satb_prog_name(p: &[u8]) -> String {
+    if p.is_empty() {
+        "-".to_string()
+    } else {
+        p.iter().map(|o| SATB_OPS.get(*o as usize).copied().unwrap_or("?")).collect::<Vec<_>>().join(";")
+    }
+}
+
+/// What the mutator sees of the graph: the targets of the fields ('B', 'E', 'C' or none).
+#[derive(Clone, Debug, PartialEq, Eq)]
+pub struct SatbModel {
+    pub af: Option<char>,
+    pub df: Option<char>,
+    pub ef: Option<char>,
+    pub d_rooted: bool,
+    pub e: bool,
+    pub r: Option<char>,
+}
+
+impl SatbModel {
+    pub fn new() -> SatbModel {
+        SatbModel { af: Some('B'), df: None, ef: None, d_rooted: true, e: false, r: None }
+    }
+    /// Apply `op`; `false` = the op is not applicable in this state (the program is skipped).
+    pub fn apply(&mut self, op: u8) -> bool {
+        match op {
+            0 => {
+                if self.af.is_none() {
+                    return false;
+                }
+                self.af = None;
+            }
+            1 => {
+                if !self.d_rooted || self.af.is_none() {
+                    return false;
+                }
+                self.df = self.af;
+                self.d_rooted = false;
+            }
+            2 => {
+                if self.e {
+                    return false;
+                }
+                self.e = true;
+            }
+            3 => {
+                // A.f.f is C only while A.f is B
+                if !self.e || self.af != Some('B') || self.ef.is_some() {
+                    return false;
+                }
+                self.ef = Some('C');
+            }
+            4 => {
+                if !self.e || self.af == Some('E') {
+                    return false;
+                }
+                self.af = Some('E');
+            }
+            5 => {
+                if self.af.is_none() || self.r.is_some() {
+                    return false;
+                }
+                self.r = self.af;
+            }
+            _ => return false,
+        }
+        true
+    }
+}
+
+/// Every applicable program of at most `max` ops, shortest first.
+pub fn satb_programs(max: usize) -> Vec<Vec<u8>> {
+    let mut out: Vec<Vec<u8>> = vec![vec![]];
+    let mut frontier: Vec<(Vec<u8>, SatbModel)> = vec![(vec![], SatbModel::new())];
+    for _ in 0..max {
+        let mut next = vec![];
+        for (p, m) in &frontier {
+            for op in 0..SATB_OPS.len() as u8 {
+                let mut m2 = m.clone();
+                if m2.apply(op) {
+                    let mut p2 = p.clone();
+                    p2.push(op);
+                    out.push(p2.clone());
+                    next.push((p2, m2));
+                }
+            }
+        }
+        frontier = next;
+    }
+    out
 }
 
 // ---------------------------------------------------------------------------------------------
@@ -650,8 +830,33 @@ pub fn analyse(events: &[Event], workers: usize, job: &Job) -> Result<Facts, Fai
     if gc_requests_pending != 0 {
         return fail("sched:request_not_served", format!("{} GC request(s) were made but never became the workers' goal", gc_requests_pending));
     }
-    if f.collections != job.kind.requests() {
+    if job.kind == Kind::Req2 {
+        // two concurrent requests are served by one collection (coalesced) or by two
+        if f.collections < 1 || f.collections > 2 {
+            return fail("sched:collection_count", format!("two mutators made one request each, {} collections ran", f.collections));
+        }
+    } else if f.collections != job.kind.requests() {
         return fail("sched:collection_count", format!("{} requests were made, {} collections ran", job.kind.requests(), f.collections));
+    }
+    // C11 (req2): a forced request is not refused, and the requesting mutator is blocked until a
+    // collection that stopped the world after the request has resumed the mutators
+    if job.kind == Kind::Req2 {
+        for m in 0..2usize {
+            let Some(i) = events.iter().position(|e| e.name == "m_request" && e.a == m) else {
+                return fail("c11:request_not_made", format!("mutator {} never made its request", m));
+            };
+            let Some(j) = events.iter().position(|e| e.name == "m_return" && e.a == m) else {
+                return fail("c11:request_did_not_return", format!("mutator {}'s handle_user_collection_request never returned", m));
+            };
+            if events[j].b != 1 {
+                return fail("c11:forced_request_refused", format!("mutator {}'s handle_user_collection_request(force = true) returned false (event #{}): the request was made at event #{}; stop / resume events in between: {:?}", m, j, i, events[i..j].iter().filter(|e| e.name == "vm_stopped" || e.name == "vm_resume").map(|e| e.name).collect::<Vec<_>>()));
+            }
+            let stop = events[i..j].iter().position(|e| e.name == "vm_stopped").map(|k| i + k);
+            let served = stop.map(|s0| events[s0..j].iter().any(|e| e.name == "vm_resume")).unwrap_or(false);
+            if !served {
+                return fail("c11:returned_before_gc_end", format!("mutator {}'s request (event #{}) returned true at event #{} although no collection stopped the world after the request and resumed the mutators before the return", m, i, j));
+            }
+        }
     }
     if !parked.iter().all(|p| *p) {
         return fail("sched:not_all_parked_at_quiescence", format!("parked workers at the end: {:?}", parked));
@@ -736,7 +941,7 @@ const HORIZON: usize = 50_000;
 const LIVELOCK: u32 = 200;
 
 fn scenario_sig(class_clause: &str, job: &Job) -> String {
-    format!("{}:{}", class_clause, if job.kind.is_fork() { "fork".to_string() } else { job.kind.name() })
+    format!("{}:{}", class_clause, job.kind.scenario())
 }
 
 pub struct Child {
@@ -744,6 +949,51 @@ pub struct Child {
     pub inst: Arc<Inst>,
     pub world: World,
     pub executions: u64,
+    /// shadow id of the first ephemeron value (reachable only through the ephemeron table): the
+    /// object the racers of `Kind::Race` trace
+    pub race_obj: Option<u64>,
+}
+
+/// State of the current `Kind::Race` execution (filled by the copy oracle and the racers).
+#[derive(Default)]
+struct RaceState {
+    obj: usize,
+    racers: usize,
+    /// destinations of the copies of `obj`
+    copies: Vec<usize>,
+    /// (racer, worker ordinal, result of trace_object)
+    rets: Vec<(usize, usize, usize)>,
+}
+
+static RACE: Mutex<Option<RaceState>> = Mutex::new(None);
+
+/// The addresses of the metadata of `obj` that the race is about: forwarding bits and forwarding
+/// pointer; header metadata as the whole word, side metadata as the byte.  (Not the mark bit of
+/// Immix: its byte is shared with the neighbouring objects, whose identity depends on where
+/// earlier collections copied things, so the points of an execution would depend on the history
+/// of the persistent instance; the racers touch the mark bit only while they hold the object in
+/// state BEING_FORWARDED, so the forwarding word carries the whole race.  With side forwarding
+/// bits no other object starts in the 32 bytes that share the byte: all objects here are >= 40
+/// bytes.)
+fn race_meta_ranges(obj: usize) -> Vec<(usize, usize)> {
+    use mmtk::util::metadata::MetadataSpec;
+    use mmtk::vm::ObjectModel;
+    let mut v: Vec<(usize, usize)> = vec![];
+    let mut add = |spec: MetadataSpec| match spec {
+        MetadataSpec::InHeader(h) => {
+            let a = ((obj as isize + h.bit_offset.div_euclid(8)) as usize) & !7;
+            v.push((a, a + 8));
+        }
+        MetadataSpec::OnSide(sd) => {
+            let a = mmtk::util::verif::c17::side_meta_address(&sd, unsafe { mmtk::util::Address::from_usize(obj) }).as_usize();
+            v.push((a, a + 1));
+        }
+    };
+    add(*VerifVM::LOCAL_FORWARDING_BITS_SPEC);
+    add(*VerifVM::LOCAL_FORWARDING_POINTER_SPEC);
+    v.sort();
+    v.dedup();
+    v
 }
 
 impl Child {
@@ -771,12 +1021,27 @@ impl Child {
             boot.options.push(("no_finalizer".into(), "true".into()));
             boot.options.push(("no_reference_types".into(), "true".into()));
         }
+        for (k, v) in &cfg.options {
+            boot.options.push((k.clone(), v.clone()));
+        }
+        let _ = vm::COPY_ORACLE.set(Box::new(|from, to, _bytes| {
+            if let Some(r) = RACE.lock().unwrap_or_else(|p| p.into_inner()).as_mut() {
+                if r.obj == from {
+                    r.copies.push(to);
+                    rt::event("race_copy", to, 0);
+                }
+            }
+        }));
         let mut world = World::boot(boot);
         let _ = STAGE_TABLE.set(view::buckets(world.mmtk).iter().map(|b| b.name.clone()).collect());
+        for m in 1..cfg.mutators {
+            world.bind(m);
+        }
         inst.quiesce();
         let _ = inst.end_execution();
         // the heap: root0 -> A -> B, root1 -> C, root2 -> K with an ephemeron chain K => V1 => ...
-        let build = |w: &mut World| -> Result<(), crate::shadowvm::Fail> {
+        let mut race_obj: Option<u64> = None;
+        let mut build = |w: &mut World| -> Result<(), crate::shadowvm::Fail> {
             let a = w.alloc_obj(0, 0, 40, 1, 8, Sem::Default, false)?.unwrap();
             let b = w.alloc_obj(0, 3, 40, 1, 8, Sem::Default, false)?.unwrap();
             w.write_field(0, a, 0, Some(b));
@@ -789,6 +1054,9 @@ impl Child {
                     // value -> child: the child is only reached when the value's scan packet has
                     // run, i.e. when the closure spawned by process_weak_refs is complete
                     let v = w.alloc_obj(0, 3, 40, 1, 8, Sem::Default, false)?.unwrap();
+                    if race_obj.is_none() {
+                        race_obj = Some(v);
+                    }
                     let x = w.alloc_obj(0, 4, 40, 1, 8, Sem::Default, false)?.unwrap();
                     w.write_field(0, v, 0, Some(x));
                     w.drop_root(0, 4);
@@ -802,11 +1070,13 @@ impl Child {
             w.drop_root(0, 3);
             Ok(())
         };
-        if let Err((s, m)) = build(&mut world) {
-            machinery_failure(&format!("scheduler scenarios: building the heap failed: {} {}", s, m));
+        if !cfg.bare {
+            if let Err((s, m)) = build(&mut world) {
+                machinery_failure(&format!("scheduler scenarios: building the heap failed: {} {}", s, m));
+            }
+            world.expect_weak_stages = true;
         }
-        world.expect_weak_stages = true;
-        Child { cfg, inst, world, executions: 0 }
+        Child { cfg, inst, world, executions: 0, race_obj }
     }
 
     fn workers_waiting(&self) -> Result<(), String> {
@@ -820,11 +1090,255 @@ impl Child {
     fn request_gc(&mut self) -> bool {
         // what World::gc does before the request
         let stages: Vec<Vec<usize>> = self.world.shadow_reachable_stages().iter().map(|st| st.iter().map(|id| self.world.shadow.objs[id].addr).collect()).collect();
-        self.world.expected_weak_calls = Some(stages.len());
+        // in a race execution the racers have traced the first ephemeron value before the binding's
+        // (counted) weak processing starts: it needs one round less
+        self.world.expected_weak_calls = Some(stages.len() - if vm::TRACE_FANOUT.lock().unwrap().is_some() { 1 } else { 0 });
         self.world.gc_traced_whole_heap = true;
         vm::with_state(|s| s.expected_stages = stages);
         vm::note_request_base();
         self.world.mmtk.handle_user_collection_request(vm::mutator_tls(0), true, true)
+    }
+
+    /// Scenario `satb` (C12).  Returns the first failure.
+    fn satb_execution(&mut self, job: &Job) -> Option<Fail> {
+        use crate::vm::{obj_id, obj_nrefs, obj_size, read_word};
+        const SZ: usize = 1024; // 4 Immix lines: a wrongly freed object has lines that get reused
+        const LOS: usize = 1 << 20;
+        macro_rules! tri {
+            ($e:expr) => {
+                match $e {
+                    Ok(v) => v,
+                    Err((s, m)) => return Some((format!("heap:{}", s), m)),
+                }
+            };
+        }
+        let inst = self.inst.clone();
+        let gcs = || vm::with_state(|s| s.gc_count);
+        let in_marking = |w: &World| -> bool { w.mmtk.get_plan().concurrent().map(|c| c.concurrent_work_in_progress()).unwrap_or(false) };
+        let w = &mut self.world;
+        w.expected_weak_calls = None;
+        vm::with_state(|s| s.expected_stages.clear());
+        // 1. the graph
+        let a = tri!(w.alloc_obj(0, 0, SZ, 1, 8, Sem::Default, false)).unwrap();
+        let b = tri!(w.alloc_obj(0, 1, SZ, 1, 8, Sem::Default, false)).unwrap();
+        let c = tri!(w.alloc_obj(0, 2, SZ, 1, 8, Sem::Default, false)).unwrap();
+        let d = tri!(w.alloc_obj(0, 3, SZ, 1, 8, Sem::Default, false)).unwrap();
+        w.write_field(0, a, 0, Some(b));
+        w.write_field(0, b, 0, Some(c));
+        w.drop_root(0, 1);
+        w.drop_root(0, 2);
+        let mut ids: Vec<(char, u64)> = vec![('A', a), ('B', b), ('C', c), ('D', d)];
+        // the objects do not move during a concurrent cycle; the shadow heap forgets the ones that
+        // become unreachable, so the scenario keeps their addresses itself ("weak handles")
+        let mut addrs: Vec<(char, usize)> = ids.iter().map(|(ch, id)| (*ch, w.shadow.objs[id].addr)).collect();
+        // the scheduling points on the objects' mark and log bits: one side-metadata byte covers
+        // 64 bytes of heap, so with line-aligned objects of 4 lines no byte is shared
+        let arm = |w: &World, id: u64| {
+            use mmtk::util::metadata::MetadataSpec;
+            use mmtk::vm::ObjectModel;
+            let addr = w.shadow.objs[&id].addr;
+            if addr % 256 != 0 {
+                machinery_failure(&format!("satb scenario: object at {:#x} is not line-aligned (the scenario assumes that no two objects share a metadata byte)", addr));
+            }
+            for spec in [*VerifVM::LOCAL_MARK_BIT_SPEC, *VerifVM::GLOBAL_LOG_BIT_SPEC] {
+                if let MetadataSpec::OnSide(sd) = spec {
+                    let m = mmtk::util::verif::c17::side_meta_address(&sd, unsafe { mmtk::util::Address::from_usize(addr) }).as_usize();
+                    inst.arm_range(m, m + 1);
+                }
+            }
+        };
+        for (_, id) in &ids {
+            arm(w, *id);
+        }
+        // 2. the initial-mark pause: allocate (garbage) large objects until a collection has run
+        SATB_HOLD.store(true, std::sync::atomic::Ordering::SeqCst);
+        let before = gcs();
+        let mut n = 0;
+        while gcs() == before {
+            tri!(w.alloc_obj(0, 7, LOS, 0, 8, Sem::Default, false));
+            w.drop_root(0, 7);
+            n += 1;
+            if n > 16 {
+                machinery_failure("satb scenario: 16 MiB of allocation did not trigger a collection");
+            }
+        }
+        if gcs() != before + 1 || !in_marking(w) {
+            machinery_failure(&format!("satb scenario: the allocation burst caused {} pause(s), concurrent marking in progress = {}: expected the initial-mark pause", gcs() - before, in_marking(w)));
+        }
+        SATB_HOLD.store(false, std::sync::atomic::Ordering::SeqCst);
+        rt::event("satb_marking_started", n, 0);
+        let dbg = std::env::var("SATB_DEBUG").is_ok();
+        let dump = |w: &World, ids: &Vec<(char, u64)>, when: &str| {
+            if !dbg {
+                return;
+            }
+            use mmtk::vm::ObjectModel;
+            let mut line = format!("[satb] {:<28}", when);
+            for (ch, id) in ids {
+                if let Some(o) = w.shadow.objs.get(id) {
+                    let r = mmtk::util::ObjectReference::from_raw_address(unsafe { mmtk::util::Address::from_usize(o.addr) }).unwrap();
+                    let log = VerifVM::GLOBAL_LOG_BIT_SPEC.load_atomic::<VerifVM, u8>(r, None, std::sync::atomic::Ordering::SeqCst);
+                    #[cfg(feature = "vo_bit")]
+                    let vo = mmtk::memory_manager::is_mmtk_object(unsafe { mmtk::util::Address::from_usize(o.addr) }).is_some();
+                    #[cfg(not(feature = "vo_bit"))]
+                    let vo = true;
+                    line.push_str(&format!(" {}@{:x}[reach={} unlog={} vo={} f={:x}]", ch, o.addr & 0xfffff, r.is_reachable() as u8, log, vo as u8, read_word(unsafe { mmtk::util::Address::from_usize(o.addr + 24) }) & 0xfffff));
+                } else {
+                    line.push_str(&format!(" {}[forgotten]", ch));
+                }
+            }
+            eprintln!("{}", line);
+        };
+        dump(w, &ids, "marking started");
+        // 3. the mutator program, racing with the concurrent marking packets
+        let marked = |addrs: &Vec<(char, usize)>| -> usize { addrs.iter().take(4).filter(|(_, a)| mmtk::util::ObjectReference::from_raw_address(unsafe { mmtk::util::Address::from_usize(*a) }).unwrap().is_reachable()).count() };
+        let marked_at_start = marked(&addrs);
+        let mut model = SatbModel::new();
+        let cycle_pauses = gcs();
+        // the cycle can end inside the program: an allocating op polls, and when the marking is
+        // already complete that poll is the final-mark pause.  What the program does after that is
+        // outside the snapshot's cycle: such executions only get the shadow-heap checks.
+        let mut ended_early = false;
+        let id_of = |ids: &Vec<(char, u64)>, ch: char| ids.iter().find(|x| x.0 == ch).map(|x| x.1).unwrap();
+        self.inst.set_explore(true);
+        for op in &job.prog {
+            baton::step(10 + *op as u32);
+            let cur_af = model.af;
+            if !model.apply(*op) {
+                machinery_failure(&format!("satb scenario: op {} of program {:?} is not applicable", op, job.prog));
+            }
+            match *op {
+                0 => w.write_field(0, a, 0, None),
+                1 => {
+                    w.write_field(0, d, 0, Some(id_of(&ids, cur_af.unwrap())));
+                    w.drop_root(0, 3);
+                }
+                2 => {
+                    let e = tri!(w.alloc_obj(0, 4, SZ, 1, 8, Sem::Default, false)).unwrap();
+                    ids.push(('E', e));
+                    addrs.push(('E', w.shadow.objs[&e].addr));
+                    arm(w, e);
+                }
+                3 => w.write_field(0, id_of(&ids, 'E'), 0, Some(c)),
+                4 => w.write_field(0, a, 0, Some(id_of(&ids, 'E'))),
+                5 => w.set_root(0, 5, Some(id_of(&ids, cur_af.unwrap()))),
+                _ => {}
+            }
+            dump(w, &ids, &format!("after op {}", SATB_OPS[*op as usize]));
+            if gcs() != cycle_pauses || !in_marking(w) {
+                ended_early = true;
+            }
+        }
+        baton::step(9);
+        self.inst.set_explore(false);
+        let marking_after_program = in_marking(w);
+        *SATB_OUT.lock().unwrap() = format!("marked_at_start={};marked_at_end={}{}", marked_at_start, if ended_early { 4 } else { marked(&addrs) }, if ended_early { ";cycle_ended_in_program" } else { "" });
+        // the snapshot: every object that was reachable when marking started, or was allocated
+        // during marking, must survive this cycle untouched (SATB)
+        let snap: Vec<(char, usize, Vec<usize>)> = addrs.iter().map(|(ch, addr)| {
+            let words: Vec<usize> = (1..SZ / 8).map(|k| read_word(unsafe { mmtk::util::Address::from_usize(addr + 8 * k) })).collect();
+            (*ch, *addr, words)
+        }).collect();
+        // let the marking finish
+        self.inst.quiesce();
+        dump(w, &ids, "marking finished");
+        if ended_early {
+            rt::event("satb_cycle_ended_in_program", 0, 0);
+            // (the same tail as below without the snapshot checks)
+            tri!(w.gc(0, true));
+            for r in 0..8 {
+                w.drop_root(0, r);
+            }
+            tri!(w.gc(0, true));
+            return None;
+        }
+        // 4. the final-mark pause: the next poll
+        let before = gcs();
+        let mut n = 0;
+        while gcs() == before {
+            tri!(w.alloc_obj(0, 7, 64 << 10, 0, 8, Sem::Default, false));
+            w.drop_root(0, 7);
+            n += 1;
+            if n > 64 {
+                machinery_failure("satb scenario: no final-mark pause after the concurrent marking had finished");
+            }
+        }
+        if in_marking(w) {
+            machinery_failure("satb scenario: concurrent marking still in progress after the pause that should have been the final mark");
+        }
+        rt::event("satb_final_mark_done", n, marking_after_program as usize);
+        dump(w, &ids, "after the final-mark pause");
+        let check = |when: &str| -> Option<Fail> {
+            for (ch, addr, words) in &snap {
+                for (k, wv) in words.iter().enumerate() {
+                    let now = read_word(unsafe { mmtk::util::Address::from_usize(addr + 8 * (k + 1)) });
+                    if now != *wv {
+                        let o = mmtk::util::ObjectReference::from_raw_address(unsafe { mmtk::util::Address::from_usize(*addr) }).unwrap();
+                        return Some(("satb:snapshot_object_damaged".into(), format!("{}: object {} at {:#x} (reachable when marking started or allocated during marking) changed: word {} was {:#x}, is {:#x} (id word now {}, size {}, nrefs {})", when, ch, addr, k + 1, wv, now, obj_id(o), obj_size(o), obj_nrefs(o))));
+                    }
+                }
+                #[cfg(feature = "vo_bit")]
+                {
+                    // (SATB_NO_VO: debugging aid to exercise the content clause alone)
+                    if std::env::var("SATB_NO_VO").is_err() && !mmtk::memory_manager::is_mmtk_object(unsafe { mmtk::util::Address::from_usize(*addr) }).is_some() {
+                        return Some(("satb:snapshot_object_not_an_object".into(), format!("{}: object {} at {:#x} is no longer an MMTk object", when, ch, addr)));
+                    }
+                }
+            }
+            None
+        };
+        if let Some(f) = check("right after the final-mark pause") {
+            return Some(f);
+        }
+        // 5. reuse what the cycle freed: one block's worth of line-sized objects
+        let before = gcs();
+        for _ in 0..160 {
+            tri!(w.alloc_obj(0, 6, 256, 0, 8, Sem::Default, false));
+            w.drop_root(0, 6);
+        }
+        if gcs() != before {
+            machinery_failure("satb scenario: the line-reusing burst triggered a collection");
+        }
+        if let Some(f) = check("after the allocation burst that reuses the lines freed by the cycle") {
+            return Some(f);
+        }
+        // 6. a full collection (the reachable part is verified against the shadow heap), then
+        //    everything is dropped and collected: the next execution starts from an empty heap
+        tri!(w.gc(0, true));
+        for r in 0..8 {
+            w.drop_root(0, r);
+        }
+        tri!(w.gc(0, true));
+        None
+    }
+
+    /// Scenario `req2`: both mutators make one forced request each.
+    fn two_mutators_request(&mut self) {
+        // two collections may run back to back: no per-collection expectations of the weak
+        // reference monitor (the heap does not change in between; it is verified afterwards)
+        self.world.expected_weak_calls = None;
+        self.world.gc_traced_whole_heap = true;
+        vm::with_state(|s| s.expected_stages.clear());
+        vm::multi_begin(2);
+        let mmtk = self.world.mmtk;
+        let tid = 1 + self.cfg.workers;
+        let h = self.inst.spawn(tid, "mutator-1", move || {
+            vm::multi_enter_running(1);
+            vm::multi_note_request_base(1);
+            rt::event("m_request", 1, 0);
+            let r = mmtk.handle_user_collection_request(vm::mutator_tls(1), true, true);
+            rt::event("m_return", 1, r as usize);
+            vm::multi_enter_idle(1);
+        });
+        vm::multi_note_request_base(0);
+        vm::note_request_base();
+        rt::event("m_request", 0, 0);
+        let r = mmtk.handle_user_collection_request(vm::mutator_tls(0), true, true);
+        rt::event("m_return", 0, r as usize);
+        vm::multi_enter_idle(0);
+        self.inst.quiesce();
+        let _ = h.join();
+        vm::multi_end();
     }
 
     /// One execution of `job` replaying `prefix`.
@@ -842,11 +1356,46 @@ impl Child {
         let workers = self.cfg.workers;
         let mut arm = arming();
         arm.spurious_wakeups = job.spurious;
+        let mut race_old_addr = 0usize;
+        if let Kind::Race { racers } = job.kind {
+            let Some(id) = self.race_obj else {
+                machinery_failure("scheduler scenarios: a race job needs an ephemeron chain in the heap");
+            };
+            let obj = self.world.shadow.objs[&id].addr;
+            race_old_addr = obj;
+            for (lo, hi) in race_meta_ranges(obj) {
+                arm.range(lo, hi);
+            }
+            arm.start_closed = true;
+            *RACE.lock().unwrap() = Some(RaceState { obj, racers, copies: vec![], rets: vec![] });
+            let (i1, i2) = (self.inst.clone(), self.inst.clone());
+            *vm::TRACE_FANOUT.lock().unwrap() = Some(vm::TraceFanout {
+                obj,
+                racers,
+                on_fanout: Box::new(move || {
+                    rt::event("race_fanout", racers, 0);
+                    i1.set_explore(true);
+                }),
+                done: Arc::new(move |racer, ordinal, ret| {
+                    rt::event("race_done", racer, ordinal);
+                    let mut g = RACE.lock().unwrap_or_else(|p| p.into_inner());
+                    if let Some(r) = g.as_mut() {
+                        r.rets.push((racer, ordinal, ret));
+                        if r.rets.len() >= r.racers {
+                            i2.set_explore(false);
+                        }
+                    }
+                }),
+            });
+        }
+        if job.kind == Kind::Satb {
+            arm.start_closed = true;
+        }
         self.inst.begin_execution(prefix, arm, HORIZON, LIVELOCK);
         let mut early: Option<Fail> = None;
         let mut heap_checks: Vec<Result<(), crate::shadowvm::Fail>> = vec![];
         match job.kind {
-            Kind::Gc1 | Kind::Gc2 => {
+            Kind::Gc1 | Kind::Gc2 | Kind::Race { .. } => {
                 for _ in 0..job.kind.requests() {
                     if !self.request_gc() {
                         early = Some(("sched:request_ignored".into(), "a forced user collection request was ignored".into()));
@@ -855,6 +1404,21 @@ impl Child {
                     // controller; the workers' remaining tail does not touch the heap)
                     heap_checks.push(self.world.after_possible_gc());
                 }
+                self.inst.quiesce();
+            }
+            Kind::Satb => {
+                if !self.cfg.bare || self.cfg.plan != "ConcurrentImmix" {
+                    machinery_failure("scheduler scenarios: satb needs a bare ConcurrentImmix child");
+                }
+                early = self.satb_execution(job);
+                self.inst.quiesce();
+            }
+            Kind::Req2 => {
+                if self.cfg.mutators < 2 {
+                    machinery_failure("scheduler scenarios: req2 needs a child with 2 mutators");
+                }
+                self.two_mutators_request();
+                heap_checks.push(self.world.after_possible_gc());
                 self.inst.quiesce();
             }
             Kind::Fork { rounds, race } => {
@@ -924,7 +1488,7 @@ impl Child {
         // ---- oracle
         let mut failure: Option<Fail> = early;
         let mut facts = Facts::default();
-        if failure.is_none() {
+        if failure.is_none() && job.kind != Kind::Satb {
             match analyse(&info.events, workers, job) {
                 Ok(f) => facts = f,
                 Err(e) => failure = Some(e),
@@ -948,8 +1512,63 @@ impl Child {
                 }
             }
         }
+        let mut race_outcome = String::new();
+        let mut race_nontrivial = false;
+        if let Kind::Race { racers } = job.kind {
+            let st = RACE.lock().unwrap().take().unwrap_or_default();
+            let pending = vm::TRACE_FANOUT.lock().unwrap().take().is_some();
+            let new_addr = self.race_obj.map(|id| self.world.shadow.objs[&id].addr).unwrap_or(0);
+            let moving = self.world.moves;
+            let always_moves = self.cfg.plan == "SemiSpace" || self.cfg.plan == "GenCopy";
+            let rets: Vec<usize> = { let mut r = st.rets.clone(); r.sort(); r.iter().map(|x| x.2).collect() };
+            let rel = |a: usize| -> String { if a == race_old_addr { "the old object".to_string() } else if Some(&a) == st.copies.first() { "copy#0".to_string() } else if st.copies.contains(&a) { format!("copy#{}", st.copies.iter().position(|c| *c == a).unwrap()) } else { format!("{:#x}", a) } };
+            let verdict: Option<Fail> = if pending {
+                Some(("fwd:fanout_not_consumed".into(), "process_weak_refs was not called in this collection: the racers never ran".into()))
+            } else if rets.len() != racers {
+                Some(("fwd:racer_lost".into(), format!("{} of {} racing tracer packets ran", rets.len(), racers)))
+            } else if st.copies.len() > 1 || (always_moves && st.copies.is_empty()) {
+                Some(("fwd:copy_count".into(), format!("ObjectModel::copy ran {} times for the raced object {:#x} (destinations {:x?}), expected {}", st.copies.len(), race_old_addr, st.copies, if always_moves { "exactly once" } else { "at most once" })))
+            } else if rets.iter().any(|r| *r != rets[0]) {
+                Some(("fwd:tracers_disagree".into(), format!("the racing tracers' trace_object calls on {:#x} returned {:?}", race_old_addr, rets.iter().map(|r| rel(*r)).collect::<Vec<_>>())))
+            } else if rets[0] != st.copies.first().copied().unwrap_or(race_old_addr) {
+                Some(("fwd:wrong_reference".into(), format!("the racing tracers returned {}, expected {}", rel(rets[0]), if st.copies.is_empty() { "the unmoved object".to_string() } else { "the copy".to_string() })))
+            } else if new_addr != rets[0] {
+                Some(("fwd:slot_disagrees".into(), format!("after the collection the ephemeron table holds {:#x} for the raced object, the tracers returned {}", new_addr, rel(rets[0]))))
+            } else if !moving && !st.copies.is_empty() {
+                Some(("fwd:copy_count".into(), "a non-moving plan copied the object".into()))
+            } else {
+                None
+            };
+            if failure.is_none() {
+                failure = verdict;
+            }
+            let mut by: Vec<(usize, usize)> = st.rets.iter().map(|x| (x.0, x.1)).collect();
+            by.sort();
+            race_outcome = format!(";racers_on={:?};copies={}", by.iter().map(|x| x.1).collect::<Vec<_>>(), st.copies.len());
+            // the racers overlapped: some racer started tracing before another one had returned
+            let mut started = 0usize;
+            let mut done = 0usize;
+            let mut overlap = false;
+            for e in &info.events {
+                match e.name {
+                    "packet_start" if short(e.tag) == "TraceRacePacket" => {
+                        started += 1;
+                        if started > done + 1 {
+                            overlap = true;
+                        }
+                    }
+                    "race_done" => done += 1,
+                    _ => {}
+                }
+            }
+            race_nontrivial = overlap;
+            if overlap {
+                race_outcome.push_str(";overlap");
+            }
+        }
         let outcome = format!("fin={:?};h={:?};dec={}", facts.gc_finished_by, facts.harness_runs.iter().map(|(_, w)| *w).collect::<Vec<_>>(), facts.last_parked_decisions);
-        let nontrivial = info.preemptions > 0 || facts.harness_runs.iter().map(|(_, w)| *w).collect::<std::collections::BTreeSet<_>>().len() > 1;
+        let outcome = if job.kind == Kind::Satb { std::mem::take(&mut *SATB_OUT.lock().unwrap()) } else { format!("{}{}", outcome, race_outcome) };
+        let nontrivial = if job.kind.is_race() { race_nontrivial } else if job.kind == Kind::Satb { info.preemptions > 0 && !outcome.contains("cycle_ended") } else { info.preemptions > 0 || facts.harness_runs.iter().map(|(_, w)| *w).collect::<std::collections::BTreeSet<_>>().len() > 1 };
         let violation = failure.map(|(s, m)| (scenario_sig(&s, job), m));
         (info, Verdict { outcome, violation, nontrivial })
     }
@@ -995,10 +1614,10 @@ pub fn child(id: &str, args: &[String]) -> ! {
     let mode = args.get(2).map(|s| s.as_str()).unwrap_or("run");
     let payload: Value = serde_json::from_str(args.get(3).map(|s| s.as_str()).unwrap_or("null")).unwrap_or(Value::Null);
     let mut sub = Run::new(id, tier);
-    *PROGRESS.lock().unwrap() = Some(Progress { coverage: Run::new(id, tier), case: json!({"cfg": cfg.json(), "job": Job { kind: Kind::Gc1, pattern: Pattern::empty(), via_worker: false, bound: 0, free_bound: 0, spurious: 0 }.json()}) });
+    *PROGRESS.lock().unwrap() = Some(Progress { coverage: Run::new(id, tier), case: json!({"cfg": cfg.json(), "job": Job { kind: Kind::Gc1, pattern: Pattern::empty(), via_worker: false, bound: 0, free_bound: 0, spurious: 0, prog: vec![] }.json()}) });
     let mut ch = Child::boot(cfg.clone());
     // warm-up collections under the default schedule
-    let warm = Job { kind: Kind::Gc1, pattern: Pattern::empty(), via_worker: false, bound: 0, free_bound: 0, spurious: 0 };
+    let warm = Job { kind: if cfg.bare { Kind::Satb } else { Kind::Gc1 }, pattern: Pattern::empty(), via_worker: false, bound: 0, free_bound: 0, spurious: 0, prog: vec![] };
     for _ in 0..2 {
         let (_, v) = ch.execute(&warm, Prefix::default());
         if let Some((s, m)) = v.violation {
@@ -1109,6 +1728,12 @@ pub struct Plan {
     pub jobs: Vec<Job>,
 }
 
+/// Signature of a child that died: `sched:crash:<signal / WORKER-PANIC><panic location>:<scenario>`
+/// (`fwd:crash:...:race` for the forwarding race of C17).
+fn crash_sig(sig: &str, loc: &str, scen: &str) -> String {
+    format!("{}:crash:{}{}:{}", if scen == "race" { "fwd" } else { "sched" }, sig, loc, scen)
+}
+
 /// Run the children, confirm every violation by a replay in a fresh process, and merge.
 pub fn run_parent(run: &mut Run, plans: Vec<Plan>, owns: &dyn Fn(&str) -> bool, timeout_s: u64) {
     let args: Vec<Vec<String>> = plans.iter().map(|p| vec!["--child".to_string(), run.id.clone(), p.cfg.json().to_string(), run.tier.name().to_string(), "run".to_string(), Value::Array(p.jobs.iter().map(|j| j.json()).collect()).to_string()]).collect();
@@ -1125,8 +1750,8 @@ pub fn run_parent(run: &mut Run, plans: Vec<Plan>, owns: &dyn Fn(&str) -> bool, 
             let (case_s, detail) = rest.split_once(" ||| ").unwrap_or((rest, ""));
             let case: Value = serde_json::from_str(case_s).unwrap_or(json!({"raw": case_s}));
             let loc = detail.split("panicked at ").nth(1).map(crate::shadow_check::panic_slug).unwrap_or_default();
-            let scen = if case["job"]["kind"].as_str().map(|k| k.starts_with("fork")).unwrap_or(false) { "fork".to_string() } else { case["job"]["kind"].as_str().unwrap_or("gc1").to_string() };
-            candidates.push((format!("sched:crash:{}{}:{}", sig, loc, scen), format!("{}: the process died ({}) {}", label, sig, detail), case));
+            let scen = Kind::from_name(case["job"]["kind"].as_str().unwrap_or("gc1")).scenario();
+            candidates.push((crash_sig(sig, &loc, &scen), format!("{}: the process died ({}) {}", label, sig, detail), case));
             run.add("children_crashed", 1);
             run.set("exhaustive", false);
         } else if r.get("child_died").is_some() {
@@ -1178,8 +1803,8 @@ pub fn replay_in_child(id: &str, tier: Tier, case: &Value, timeout_s: u64) -> Op
         let (sig, rest) = crash.split_once(' ').unwrap_or((crash, ""));
         let (_, detail) = rest.split_once(" ||| ").unwrap_or((rest, ""));
         let loc = detail.split("panicked at ").nth(1).map(crate::shadow_check::panic_slug).unwrap_or_default();
-        let scen = if case["job"]["kind"].as_str().map(|k| k.starts_with("fork")).unwrap_or(false) { "fork".to_string() } else { case["job"]["kind"].as_str().unwrap_or("gc1").to_string() };
-        return Some(format!("sched:crash:{}{}:{}", sig, loc, scen));
+        let scen = Kind::from_name(case["job"]["kind"].as_str().unwrap_or("gc1")).scenario();
+        return Some(crash_sig(sig, &loc, &scen));
     }
     if r.get("child_died").is_some() {
         machinery_failure(&format!("replay child died without a result: {}", r));
@@ -1191,5 +1816,40 @@ pub fn replay(id: &str, case: &Value, run: &mut Run) {
     match replay_in_child(id, run.tier, case, 600) {
         Some(sig) => run.violation(sig, "reproduced".to_string(), case.clone()),
         None => {}
+    }
+}
+
+/// Merge the result of a baton phase (`sub`, produced by `run_parent`) into the run of a check
+/// that has other phases as well: the phase's counters go under `<prefix>_...` keys, the common
+/// counters are added up, violations, assumptions and a few samples are taken over.
+pub fn merge_phase(run: &mut Run, sub: Run, prefix: &str, children: u64) {
+    let cov = sub.coverage.clone();
+    let g = |k: &str| cov.get(k).and_then(|v| v.as_u64()).unwrap_or(0);
+    let exhaustive = cov.get("exhaustive").and_then(|v| v.as_bool()).unwrap_or(false);
+    run.set(&format!("{}_child_processes", prefix), children);
+    run.set(&format!("{}_executions", prefix), g("evaluations"));
+    run.set(&format!("{}_nontrivial_executions", prefix), g("distinct_nontrivial"));
+    run.set(&format!("{}_scheduling_steps", prefix), g("transitions"));
+    run.set(&format!("{}_real_collections", prefix), g("real_collections"));
+    run.set(&format!("{}_objects_verified", prefix), g("objects_verified"));
+    run.set(&format!("{}_exhaustive_within_bounds", prefix), exhaustive);
+    run.set(&format!("{}_outcome_classes", prefix), cov.get("outcome_classes").cloned().unwrap_or(json!({})));
+    if let Some(ff) = cov.get("foreign_failures") {
+        run.set(&format!("{}_foreign_failures", prefix), ff.clone());
+    }
+    for k in ["states", "transitions", "evaluations", "distinct_nontrivial", "traces_validated_against_impl"] {
+        run.add(k, g(k));
+    }
+    if !exhaustive || run.coverage.get("exhaustive").is_none() {
+        run.set("exhaustive", exhaustive);
+    }
+    for smp in sub.samples.iter().take(4) {
+        run.sample(smp.clone());
+    }
+    for a in sub.assumptions.iter() {
+        run.assume(a);
+    }
+    for v in sub.violations {
+        run.violation(v.signature, v.message, v.case);
     }
 }
